@@ -127,7 +127,9 @@ impl<'a> Gen<'a> {
                 self.feat("repeated_name_branch_before_same_variant_branch");
                 let (k1, k2) = (self.rng.range(0, 3), self.rng.range(0, 3));
                 let pick = self.rng.range(0, 2);
-                let x = self.of(t, cx, d - 1); let y = self.of(t, cx, d - 1); let z = self.of(t, cx, d - 1);
+                // (inside the block the flowing value is the scrutinee pair, not the surrounding one: no `~` in the arms)
+                let inner = cx.with_flow(None);
+                let x = self.of(t, &inner, d - 1); let y = self.of(t, &inner, d - 1); let z = self.of(t, &inner, d - 1);
                 let (a, b, c) = (self.name(), self.name(), self.name());
                 format!("[{} {{ | ={} => A[{}] | B[] }}, {}] {{ | =[A[{}], {}] => {} | =[A[{}], {}] => {} | {} }}", pick, pick.min(1), k1, k2, a, a, x, b, c, y, z)
             }
